@@ -623,9 +623,21 @@ pub fn cache(attr: TokenStream, item: TokenStream) -> TokenStream {
     // Generate cache key expression
     let key_expr = generate_key_expr_with_cacheable_key(has_self, &arg_pats);
 
-    // Detect Result type
+    // Detect Result type, looking through redundant parentheses and the invisible group a
+    // `macro_rules!` type fragment arrives in: `-> (Result<T, E>)` returns a Result too
     let is_result = {
-        let s = quote!(#ret_type).to_string().replace(' ', "");
+        let mut ty = match &sig.output {
+            ReturnType::Type(_, ty) => Some(&**ty),
+            ReturnType::Default => None,
+        };
+        while let Some(syn::Type::Paren(syn::TypeParen { elem, .. }))
+        | Some(syn::Type::Group(syn::TypeGroup { elem, .. })) = ty
+        {
+            ty = Some(&**elem);
+        }
+        let s = ty
+            .map(|t| quote!(#t).to_string().replace(' ', ""))
+            .unwrap_or_default();
         s.starts_with("Result<") || s.starts_with("std::result::Result<")
     };
 
